@@ -53,6 +53,7 @@ Facts(c) ==
     [] c = "URI_BADSCHEME" -> F(FALSE, FALSE, FALSE, "n", "n", "na", "n", "n", "n", TRUE)
     [] c = "URI_NOSCHEME"  -> F(FALSE, FALSE, FALSE, "n", "n", "na", "n", "n", "n", TRUE)
     [] c = "URI_NOHOST"    -> F(FALSE, FALSE, FALSE, "n", "n", "na", "n", "n", "n", TRUE)
+    [] c = "URI_BRACKETS"  -> F(FALSE, FALSE, FALSE, "n", "n", "na", "n", "n", "u", TRUE)  \* unbalanced / ill-filled IP-literal brackets: which verdict is unspecified, a verdict there must be
     [] c = "URI_EXOTIC"    -> F(FALSE, FALSE, FALSE, "n", "n", "na", "n", "n", "u", TRUE)  \* userinfo, ports, IP literals, %-escapes, fragments, upper-case scheme
     [] c = "LENIENT_INT"   -> F(FALSE, FALSE, FALSE, "u", "u", "na", "u", "u", "n", TRUE)  \* +5, 007, 1_0, padded, non-ASCII digits
     [] c = "LENIENT_FLOAT" -> F(FALSE, FALSE, FALSE, "n", "u", "na", "u", "n", "n", TRUE)  \* .5, 5., padded, 1_0.5
@@ -61,7 +62,7 @@ Facts(c) ==
 IntClass(b) == F(FALSE, FALSE, FALSE, "y", "y", b, "u", "u", "n", TRUE)     \* canonical integers that are not 4-digit years
 DecClass(b) == F(FALSE, FALSE, FALSE, "n", "y", b, "u", "n", "n", TRUE)     \* canonical decimals ("12.5" is an ISO fractional hour for Python)
 PlainClasses == {"NONE", "EMPTY", "BLANK", "TEXT", "UNICODE", "METATEXT", "SENTINEL", "SURROGATE", "INT4", "SCI", "NAN", "PINF", "NINF", "OVERFLOW",
-                 "UNDERFLOW", "DIGITLIKE", "TIME", "TIME_ZONED", "BADTIME", "DATE", "BADDATE", "URI", "URI_FULL", "URI_BADSCHEME", "URI_NOSCHEME", "URI_NOHOST", "URI_EXOTIC",
+                 "UNDERFLOW", "DIGITLIKE", "TIME", "TIME_ZONED", "BADTIME", "DATE", "BADDATE", "URI", "URI_FULL", "URI_BADSCHEME", "URI_NOSCHEME", "URI_NOHOST", "URI_EXOTIC", "URI_BRACKETS",
                  "LENIENT_INT", "LENIENT_FLOAT", "LENIENT_TIME", "LENIENT_DATE"}
 (* a class is a record [cls, bucket]; bucket "" for plain classes *)
 AllClasses == {[cls |-> c, bucket |-> ""] : c \in PlainClasses}
